@@ -166,6 +166,7 @@ fn scenario<K: Kmer + Send + Sync + Serialize + DeserializeOwned + 'static>(
     extra: &[K],
     fix_mask_seed: u64,
     concurrent_callers: bool,
+    bigger: Option<&BaseGraph<K, u16>>,
     sh: &Mutex<Shared>,
 ) {
     rayon::reset_interleaving();
@@ -196,6 +197,21 @@ fn scenario<K: Kmer + Send + Sync + Serialize + DeserializeOwned + 'static>(
             (ha.join().unwrap(), hb.join().unwrap())
         });
         g1 = ga;
+        if let Some(big) = bigger {
+            let gp = big.clone().finish();
+            let gs = big.clone().finish_serial();
+            let pp = probes(&gs, &[]);
+            if let Some(d) = first_diff(&transcript(&gp, &pp), &transcript(&gs, &pp)) {
+                let mut s = sh.lock().unwrap();
+                if s.violation.is_none() {
+                    s.violation = Some(Violation::new(
+                        "parallel-vs-serial",
+                        "BaseGraph::finish after two concurrent finish() calls",
+                        format!("a larger graph finished afterwards answers differently from its serial build: {}", d),
+                    ));
+                }
+            }
+        }
         // the second caller's graph must equal its own serial build too
         let gs = other.clone().finish_serial();
         let pp = probes(&gs, &[]);
@@ -292,6 +308,25 @@ fn run_k<K: Kmer + Send + Sync + Serialize + DeserializeOwned + 'static>(c: &Cas
     } else {
         None
     };
+    // for the concurrent-callers variant: a third, larger graph (one node per k-mer of the same reads)
+    // finished AFTER the two concurrent calls - process-wide state they may have left behind shows here
+    let bigger: Option<BaseGraph<K, u16>> = if c.concurrent_callers && c.graph.direct_nodes.is_empty() {
+        let out: Arc<Mutex<Option<BaseGraph<K, u16>>>> = Arc::new(Mutex::new(None));
+        let (o2, spec) = (out.clone(), c.graph.clone());
+        Runner::new(RandomScheduler::new_from_seed(0, 1), shuttle_config()).run(move || {
+            let t = simcore::pipe::count_table::<K>(&spec.reads, spec.stranded, 1);
+            let mut b: BaseGraph<K, u16> = BaseGraph::new(spec.stranded);
+            for (kmer, exts, _) in t.iter() {
+                b.add(debruijn::Mer::iter(kmer), *exts, 1);
+            }
+            *o2.lock().unwrap() = Some(b);
+        });
+        let b = out.lock().unwrap().take();
+        b
+    } else {
+        None
+    };
+    let bigger = Arc::new(bigger);
     let base = Arc::new(base);
     let prior = Arc::new(prior);
     let extra = Arc::new(extra);
@@ -308,11 +343,11 @@ fn run_k<K: Kmer + Send + Sync + Serialize + DeserializeOwned + 'static>(c: &Cas
     );
     let slog: Option<ScheduleLog> = if rec.recording() { Some(Arc::new(Mutex::new(Vec::new()))) } else { None };
     {
-        let (base, prior, extra, sh) = (base.clone(), prior.clone(), extra.clone(), sh.clone());
+        let (base, prior, extra, sh, bigger) = (base.clone(), prior.clone(), extra.clone(), sh.clone(), bigger.clone());
         let fix_mask_seed = c.fix_mask_seed;
         let concurrent_callers = c.concurrent_callers;
         let (sched, seed, n, sl) = (c.sched.clone(), c.sched_seed, c.executions, slog.clone());
-        let r = simcore::driver::guarded(move || run_batch(&sched, seed, n, sl, move || scenario::<K>(&base, prior.as_ref().as_ref(), &extra, fix_mask_seed, concurrent_callers, &sh)));
+        let r = simcore::driver::guarded(move || run_batch(&sched, seed, n, sl, move || scenario::<K>(&base, prior.as_ref().as_ref(), &extra, fix_mask_seed, concurrent_callers, bigger.as_ref().as_ref(), &sh)));
         if let Some(l) = &slog {
             note_schedules(rec, l);
         }
@@ -487,7 +522,7 @@ pub fn nondet_selftest(seed: u64, n_cases: u64) -> i32 {
         let (b2, s2) = (base.clone(), sh.clone());
         let r = simcore::driver::guarded(move || {
             let sched = UncontrolledNondeterminismCheckScheduler::new(RandomScheduler::new_from_seed(c.sched_seed, 3));
-            Runner::new(sched, shuttle_config()).run(move || scenario::<Kmer6>(&b2, None, &[], 0, false, &s2));
+            Runner::new(sched, shuttle_config()).run(move || scenario::<Kmer6>(&b2, None, &[], 0, false, None, &s2));
         });
         execs += sh.lock().unwrap().executions;
         if let Err((loc, msg)) = r {
